@@ -26,10 +26,14 @@ DPROFILES = {
         IterTypeKinds=["list", "set", "Sequence", "tuple_var", "frozenset", "Iterable", "deque", "MutableSequence", "AbstractSet"],
         Width=2, Deep=True, reps=2),
     "thorough": dict(
-        NestTokens=["i0", "i1", "i2", "i_neg", "i_huge", "bT", "bF", "s_a", "s_int", "s_empty", "s_nonascii", "none", "f_frac", "f1", "f_neg", "f_inf",
-                    "d_frac", "d1", "da", "dt", "ti", "td", "td_neg", "td_frac", "by_a", "ba_a", "fr_half", "cx_j", "uu", "ip", "pa", "pat"],
-        ElemKinds=sorted(k for k in gamma.SCALAR_HINT),
-        IterTypeKinds=sorted(gamma.ITER_HINT), Width=2, Deep=True, reps=3),
+        NestTokens=["i0", "i1", "i_huge", "bT", "s_a", "s_empty", "s_nonascii", "none", "f_frac", "f1", "f_inf",
+                    "d_frac", "da", "dt", "ti", "td_neg", "td_frac", "by_a", "ba_a", "fr_half", "cx_j", "uu", "ip", "pa", "pat", "ppp", "net6", "if4"],
+        # every scalar kind is explored at top level; as container elements: the kinds with a conversion of their own plus one member of
+        # each documented "exact list" (all 32 kinds as elements made MC_Dump run for more than half an hour)
+        ElemKinds=["int", "str", "bool", "float", "Decimal", "Fraction", "complex", "date", "time", "datetime", "timedelta", "Any", "None", "bytes",
+                   "bytearray", "UUID", "Path", "IPv4Address", "Pattern", "object", "PurePosixPath", "IPv6Network", "IPv4Interface"],
+        IterTypeKinds=["list", "set", "Sequence", "tuple_var", "frozenset", "Iterable", "deque", "MutableSequence", "AbstractSet", "Collection"],
+        Width=2, Deep=True, reps=3),
 }
 
 
